@@ -21,7 +21,7 @@ CHECKS = {
             "DESIGN.md §8 C02"),
     "C03": (True,
             "Legal transitions of a stored mint quote as a precondition of every UpdateMintQuoteState call site (UNPAID->PAID only when the backend reports settled, PAID->PENDING->ISSUED, revert to the pre-signing state); MintTokens: success implies the quote was PAID (after the poll) before and ISSUED after, outputs <= quote amount, signatures stored; an ISSUED quote is always refused; the invoice watcher re-reads the quote after its blocking wait (yield point) and only moves UNPAID to PAID. RELY/GUARANTEE TIER: MintTokens and GetMintQuoteState are verified a second time with other requests acting (within the rely: an issued quote stays issued, quotes and their amounts stay, signatures stay) before every store / Lightning call; the legal-transition precondition of every state write and the guarantee 'my own write is a step the rely allows' are obligations there. Four of them FAIL and are listed as known findings: both functions write a state they computed from an earlier read (two concurrent mint requests both issue; a poll writes PAID over ISSUED) - shown by deterministic interleaving replays.",
-            "Sequential histories, the yield point of the invoice watcher, and the rely/guarantee tier for concurrent mint requests and polls (its failing obligations are open known findings, not proofs). NUT-20: nut20.VerifyMintQuoteSignature / SignMintQuote proved (loop invariant) to check / sign SHA-256 of the quote id followed by the B_ of EVERY output in request order; MintTokens proved to issue a quote whose stored record has a public key only after that verifier accepted the request's hex signature for (request quote id, request outputs, stored key); RequestMintQuote stores the key the request named (and none otherwise). Assumed: storage.MintDB and lightning.Client contracts, Schnorr unforgeability not decided. Rely/guarantee tier as for C01.",
+            "Sequential histories, the yield point of the invoice watcher, and the rely/guarantee tier for concurrent mint requests and polls (its failing obligations are open known findings, not proofs). NUT-20: nut20.VerifyMintQuoteSignature / SignMintQuote proved (loop invariant) to check / sign SHA-256 of the quote id followed by the B_ of EVERY output in request order; MintTokens proved to issue a quote whose stored record has a public key only after that verifier accepted the request's hex signature for (request quote id, request outputs, stored key); RequestMintQuote stores the key the request named (and none otherwise). Wallet side: wallet.MintTokens proved to send, for a quote that has a private key, the hex Schnorr signature of that key over this quote id and exactly the outputs it sends, in sending order (same spec message as the mint's verifier). Assumed: storage.MintDB and lightning.Client contracts, Schnorr unforgeability not decided. Rely/guarantee tier as for C01.",
             "DESIGN.md §8 C03"),
     "C04": (True,
             "verifyProofs proved to establish, for every input of Swap and MeltTokens: secret length <= 512, keyset id known in the map of ALL keysets, amount is a key of THAT keyset, C is hex and parses as a point, and pt(C) = k(id, amount) * hash_to_curve(secret) - the key taken from exactly (id, amount) of the proof, never from the active keyset; crypto.verify/Verify proved equivalent to that equation from the algebraic contracts of the secp256k1 calls they make; HashToCurve proved equal to the NUT-00 spec function (loop invariant over the counter search).",
